@@ -153,7 +153,17 @@ fn path() -> BoxedStrategy<String> {
         2 => Just(String::new()),
         2 => Just("/".to_string()),
         3 => proptest::sample::select(vec!["/ipp/print", "/printers/test-printer", "/ipp", "/printers/Office%20Laser", "/a/b/c/"]).prop_map(|s| s.to_string()),
-        5 => proptest::collection::vec(seg, 1..5).prop_map(|v| format!("/{}", v.join("/"))),
+        5 => proptest::collection::vec(seg.clone(), 1..5).prop_map(|v| format!("/{}", v.join("/"))),
+        // long paths (around and beyond 1023 octets, the maximum RFC 8011 gives the uri syntax)
+        1 => (proptest::collection::vec(seg, 1..4), 900usize..3000).prop_map(|(v, n)| {
+            let base = v.join("/");
+            let mut p = String::from("/");
+            while p.len() < n {
+                p.push_str(&base);
+                p.push_str("/q%20r/");
+            }
+            p
+        }),
     ]
     .boxed()
 }
